@@ -101,7 +101,10 @@ METHODS = {("encode", 0): "pyEncode", ("decode", 0): "pyDecode", ("zfill", 1): "
 # argument and of the result); only the functions the decoders use
 LIBCALLS = {("math.sqrt", 1): "Ext.math_sqrt", ("math.atan2", 2): "Ext.math_atan2", ("math.degrees", 1): "Ext.math_degrees",
             ("math.log10", 1): "Ext.math_log10", ("np.floor", 1): "Ext.np_floor", ("np.isclose", 2): "Ext.np_isclose",
-            ("np.cos", 1): "Ext.np_cos", ("np.arccos", 1): "Ext.np_arccos"}
+            ("np.cos", 1): "Ext.np_cos", ("np.arccos", 1): "Ext.np_arccos",
+            ("np.exp", 1): "Ext.np_exp", ("np.sin", 1): "Ext.np_sin", ("np.sqrt", 1): "Ext.np_sqrt", ("np.radians", 1): "Ext.np_radians",
+            ("np.degrees", 1): "Ext.math_degrees", ("np.arctan2", 2): "Ext.np_arctan2", ("np.maximum", 2): "Ext.np_maximum",
+            ("np.where", 3): "Ext.np_where"}
 LIBCONSTS = {"np.pi": "Ext.np_pi", "math.pi": "Ext.np_pi"}
 
 
@@ -943,6 +946,8 @@ class FnTranslator:
             if isinstance(e.op, ast.Mod) and isinstance(e.left, ast.Constant) and isinstance(e.left.value, str):
                 return self.fmt_percent(e.left.value, e.right), False
             op = BINOPS.get(type(e.op))
+            if isinstance(e.op, ast.Pow) and self.mc.ns == "aero":
+                op = "Ext.float_pow"     # float exponents (3.5, 2/7, 4.2568...): libm pow in double precision
             if op is None:
                 raise Unsupported("operator " + type(e.op).__name__)
             a = self.val(e.left)
